@@ -61,6 +61,19 @@ def oracleVec (key : String) (r : Req) : List (List Rat) → Py (List Rat) := fu
     | .error _ => .error .other
   | .error _ => .error .other
 
+/-- stand-in for an oracle that is called several times: the request carries the table of (argument, answer) pairs the real
+external function produced, `"oracle": {key: [[arg, answer], …]}` -/
+def oracleTable (key : String) (r : Req) : List Rat → Py (List Int) := fun x =>
+  match r.oracle.getObjVal? key with
+  | .ok j =>
+    match (JCodec.dec j : Except String (List (List Rat × List Int))) with
+    | .ok tbl =>
+      match tbl.find? (fun p => p.1 == x) with
+      | some p => .ok p.2
+      | none => .error .other
+    | .error _ => .error .other
+  | .error _ => .error .other
+
 partial def loop (dispatch : Req → Except String Json) (h out : IO.FS.Stream) : IO Unit := do
   let line ← h.getLine
   if line.isEmpty then return ()
